@@ -4,7 +4,34 @@ import re
 from . import mirq, astq
 from .facts import strip_generics, walk
 
-FORBIDDEN = re.compile(r'\b(Cell|RefCell|UnsafeCell|Mutex|RwLock|OnceCell|OnceLock|LazyCell|LazyLock|Atomic[A-Z]\w*|SyncUnsafeCell)\b|\*mut ')
+FORBIDDEN_NAMES = re.compile(r'^(Cell|RefCell|UnsafeCell|Mutex|RwLock|OnceCell|OnceLock|LazyCell|LazyLock|Atomic[A-Z]\w*|SyncUnsafeCell)$')
+_PATH = re.compile(r'[A-Za-z_][A-Za-z_0-9]*(?:::[A-Za-z_][A-Za-z_0-9]*)*')
+LOCAL_ADTS = set()   # filled by audit(): the crate's own types may be *named* Cell (compilation_scope::Cell) without being one
+
+
+class _Hit:
+    def __init__(self, s):
+        self.s = s
+
+    def group(self, _=0):
+        return self.s
+
+
+class _Forbidden:
+    """interior-mutability / raw-pointer carriers in a type string, judged on fully qualified paths: a path whose last
+    segment is a cell-like name counts unless it is one of this crate's own ADTs"""
+    @staticmethod
+    def search(ty):
+        if '*mut ' in ty:
+            return _Hit('*mut ')
+        for m in _PATH.finditer(ty):
+            path = m.group(0)
+            if FORBIDDEN_NAMES.match(path.split('::')[-1]) and path not in LOCAL_ADTS:
+                return _Hit(path)
+        return None
+
+
+FORBIDDEN = _Forbidden()
 MUT_PRIMS = re.compile(r'^(std|core|alloc)::(rc::Rc|sync::Arc)::(get_mut|make_mut|get_mut_unchecked|as_ptr|into_raw|from_raw)$|^(std|core)::cell::(Cell|RefCell|UnsafeCell)::|^(std|core)::ptr::(write|write_volatile|write_unaligned|swap|replace|copy|copy_nonoverlapping)$|^(std|core)::mem::transmute|^(std|core)::ptr::mut_ptr::')
 UTIL_OK = ('util::trysort::', 'util::try_heap::', '<util::try_heap::', '<util::trysort::')
 ROOTS = ['xvalue::XValue', 'xvalue::XFunction', 'xvalue::ManagedXValue', 'xvalue::ManagedXError', 'runtime_scope::RuntimeScopeTemplate',
@@ -26,6 +53,8 @@ UNSAFE_FILES_OK = {
 def audit(ctx, rule):
     mir = ctx.mir
     local_adts = set(mir.adts)
+    LOCAL_ADTS.clear()
+    LOCAL_ADTS.update(local_adts)
     ident = re.compile(r'[A-Za-z_][A-Za-z_0-9]*(?:::[A-Za-z_][A-Za-z_0-9]*)+')
     roots = list(ROOTS)
     for im in mir.impls:
